@@ -119,11 +119,15 @@ def split_forms(chain_len):
     return forms
 
 
-def drivers(chain_len, m):
-    """Driver descriptors for one case, in the fixed order of enumeration."""
+def drivers(chain_len, m, all_bufsizes_for_fcs_form=True):
+    """Driver descriptors for one case, in the fixed order of enumeration. The tuple, first, last and
+    bare Split forms always get every bufsize; the explicit-FillComputeSeq-object form (which differs
+    from the tuple form only in who calls the constructor) gets every bufsize or just {1, None}."""
     out = [{"name": "fcs"}, {"name": "fillseq"}]
     for form in split_forms(chain_len):
         for b in bufsizes(m):
+            if form == "split-fcs" and not all_bufsizes_for_fcs_form and b not in (1, None):
+                continue
             out.append({"name": form, "bufsize": b})
     return out
 
@@ -150,6 +154,18 @@ def _fill_until_stop(filled, flow, info):
         except lena.core.LenaStopFill:
             info["stopped"] = True
             break
+
+
+_COMPANION_REF = {}
+
+
+def companion_reference(kind, m):
+    """Canonical result of the companion chain run as a linear Sequence over the flow (kind, m)."""
+    key = (kind, m)
+    if key not in _COMPANION_REF:
+        seq = lena.core.Sequence(*[build(s) for s in COMPANION])
+        _COMPANION_REF[key] = cm.canon(list(seq.run(iter(cm.make_flow(kind, m)))))
+    return _COMPANION_REF[key]
 
 
 def run_driver(driver, pre, acc, post, kind, m, info=None):
@@ -199,11 +215,9 @@ def run_driver(driver, pre, acc, post, kind, m, info=None):
             got = list(lena.core.Split(seqs, bufsize=b).run(iter(flow)))
             mine = [v for v in got if not is_marked(v)]
             theirs = [v for v in got if is_marked(v)]
-            exp_theirs = list(lena.core.Sequence(*[build(s) for s in COMPANION])
-                              .run(iter(cm.make_flow(kind, m))))
-            if cm.canon(theirs) != cm.canon(exp_theirs):
+            if cm.canon(theirs) != companion_reference(kind, m):
                 # make the difference visible in the outcome of this driver
-                mine.append(("companion-branch-differs", theirs, exp_theirs))
+                mine.append(("companion-branch-differs", theirs))
             return mine
         return cm.outcome(thunk)
 
